@@ -7,7 +7,7 @@ import ast
 from typing import Dict, List, Optional, Set, Tuple
 
 from ..cfg import analysis, FuncAnalysis, Node, N, E
-from ..lib import prov, is_convert_call, Origin, opt_attr
+from ..lib import prov, is_convert_call, convert_type_arg, Origin, opt_attr
 from ..model import AnalysisError, FuncInfo, call_attr, call_name, kwarg, unparse, walk_shallow, norm_stmt, names_in, dotted
 from . import c04
 
@@ -162,7 +162,22 @@ def r01a(run):
               necessity="values of unknown types would be accepted unchecked under the default options")
 
 
+def _declared_type_names(fa: FuncAnalysis) -> set:
+    """locals handed to a conversion as its target type (the role `value_type` plays, whatever it is called)"""
+    cached = getattr(fa, "_c01_type_names", None)
+    if cached is None:
+        cached = set()
+        for n, c in fa.all_calls():
+            if is_convert_call(fa, n, c):
+                t = convert_type_arg(c)
+                if isinstance(t, ast.Name):
+                    cached.add(t.id)
+        fa._c01_type_names = cached
+    return cached
+
+
 def waiver_at(fa: FuncAnalysis, n: Node) -> Optional[str]:
+    tnames = _declared_type_names(fa)
     for a, p in fa.facts.atoms_at(n):
         t = unparse(a)
         if p and isinstance(a, ast.Compare) and opt_attr(a.left) in ("invalid_items", "invalid_keys", "invalid_values") \
@@ -171,9 +186,10 @@ def waiver_at(fa: FuncAnalysis, n: Node) -> Optional[str]:
         if isinstance(a, ast.Call) and call_attr(a) == "isinstance" and len(a.args) == 2 and not p \
                 and opt_attr(a.args[0]) == "addition" and unparse(a.args[1]) == "type":
             return "options.addition is truthy but not a type (surplus items are kept as they are)"
-        if not p and t in ("value_type",):
+        if not p and isinstance(a, ast.Name) and a.id in tnames:
             return "no declared value type"
-        if p and t in ("not value_type",):
+        if p and isinstance(a, ast.UnaryOp) and isinstance(a.op, ast.Not) and isinstance(a.operand, ast.Name) \
+                and a.operand.id in tnames:
             return "no declared value type"
     return None
 
@@ -297,6 +313,11 @@ def r01c(run):
                           f"being the applied-type shortcut or the None-after-transform exit (facts: {sorted(facts)[:4]})",
                   necessity="values skip element conversion and constraint validation", node=r.ast)
     def branch(text, pol):
+        if text == "not options.ignore_constraints":
+            # the options object is recognised under any local name
+            return [n for n in fa.cfg.nodes if n.kind == "branch" and not n.is_for and n.polarity == pol
+                    and isinstance(n.test, ast.UnaryOp) and isinstance(n.test.op, ast.Not)
+                    and opt_attr(n.test.operand) == "ignore_constraints"]
         return [n for n in fa.cfg.nodes if n.kind == "branch" and not n.is_for and unparse(n.test) == text and n.polarity == pol]
     for (bt, pol, stage, node_) in (("cls.__origin__", True, "origin transform", T),
                                     ("cls.__args_parser__", True, "element parser", A),
@@ -368,7 +389,16 @@ def r01d(run):
                 for x in ast.walk(n.ast.value):
                     if isinstance(x, ast.Name):
                         containers.add(x.id)
-        containers |= {"addition"} & fa.rd.locals
+        # a local merged wholesale into a returned container is itself a result container (the role `addition` plays)
+        grown = True
+        while grown:
+            grown = False
+            for n_, c in fa.all_calls():
+                if isinstance(c.func, ast.Attribute) and isinstance(c.func.value, ast.Name) and c.func.value.id in containers \
+                        and c.func.attr in ("update", "extend") and len(c.args) == 1 and isinstance(c.args[0], ast.Name) \
+                        and c.args[0].id in fa.rd.locals and c.args[0].id not in containers:
+                    containers.add(c.args[0].id)
+                    grown = True
         for n in fa.cfg.nodes:
             if n.kind != "stmt" or not fa.cfg.is_live(n):
                 continue
